@@ -65,6 +65,24 @@ def load_limited_to(limited_to):
     return GeomCoverage(geom, srs, clip=True)
 
 
+def load_limited_to_all(*limited_tos):
+    """
+    Load the coverage for the intersection of all given ``limited_to``
+    dictionaries. Missing (``None``/empty) entries are ignored.
+    Returns ``None`` if there is nothing to limit to.
+    """
+    coverages = [load_limited_to(lt) for lt in limited_tos if lt]
+    if not coverages:
+        return None
+    if len(coverages) == 1:
+        return coverages[0]
+    srs = coverages[0].srs
+    geom = coverages[0].geom
+    for c in coverages[1:]:
+        geom = geom.intersection(c.transform_to(srs).geom)
+    return GeomCoverage(geom, srs, clip=True)
+
+
 class MultiCoverage(object):
     clip = False
     """Aggregates multiple coverages"""
